@@ -20,6 +20,7 @@ EXPLANATION = (
     "reported on the pinned tree as a KNOWN FINDING (genuine lost-message race, see DESIGN.md section 4, D5)."
     "  The buffer is a list: add() iterates the live buffer while send() may append, which a deque answers with RuntimeError."
     "  The threaded writer's own rules (C19: unregister before the stop marker is queued, reader leaves only on the marker, a destination failure is contained inside the loop, one delivery per dequeued item) are part of this property as well."
+    '  Destinations.add/remove may not store a value computed from an earlier read of the destination list without a lock (lost update).'
 )
 RULE = ("obligation = rule instance bound to a statement / loop / flag of BufferingDestination, Destinations.add/"
         "remove/send; non-trivial = CFG paths examined")
